@@ -82,13 +82,18 @@ func (valSet *ValidatorSet) IncrementAccum(times int64) {
 
 func (valSet *ValidatorSet) Copy() *ValidatorSet {
 	validators := make([]*Validator, len(valSet.Validators))
+	var proposer *Validator
 	for i, val := range valSet.Validators {
 		// NOTE: must copy, since IncrementAccum updates in place.
 		validators[i] = val.Copy()
+		// the cached proposer must point into the copy, not into the original set
+		if valSet.proposer != nil && bytes.Equal(val.Address, valSet.proposer.Address) {
+			proposer = validators[i]
+		}
 	}
 	return &ValidatorSet{
 		Validators:       validators,
-		proposer:         valSet.proposer,
+		proposer:         proposer,
 		totalVotingPower: valSet.totalVotingPower,
 	}
 }
